@@ -3,9 +3,9 @@
 Carriers (swcgeom/images/io.py unless noted):
   NDArrayImageStack.__getitem__ / get_full / shape, ImageStack.get_full      (X, Y, Z, C) indexing conventions, eager stacks hand out their own array
   NrrdImageStack.__init__                                                   axis k of the stack = k-th NRRD axis, header kept, options forwarded
-  V3dImageStack.__init__ / V3drawImageStack / V3dpbdImageStack               which loader, no option accepted, rescaling; AXIS clause = FINDING (see there)
+  V3dImageStack.__init__ / V3drawImageStack / V3dpbdImageStack               which loader, no option accepted, rescaling; AXIS clause not claimed (outside the property, see there)
   read_imgs / read_images                                                   dispatch on the extension for EVERY file name (symbolic name, uninterpreted splitext)
-  GrayImageStack.get_full / shape / __getitem__                             channel 0 view; __getitem__ = FINDING (unbounded recursion)
+  GrayImageStack.get_full / shape / __getitem__                             channel 0 view; __getitem__ not claimed (outside the property; it recurses without end)
   TeraflyImageStack.is_root / shape                                         directory test used by the dispatch; (X, Y, Z, 1) of the finest level
   transforms/image_stack.py: ToImageStack.__call__ / transform_and_save / save_tif     which frames are stacked / written, in which order, with which options
 File contents are ghost values (pyvc/ext_C20.py: recording models of nrrd.read / np.load / v3dpy loaders / tifffile.TiffWriter); the decoders themselves
@@ -391,9 +391,9 @@ def reg_v3d(R):
         ("held-dtype-is-the-requested-one", nr_dtype),
         ("loaded-array-untouched", v3_untouched),
         ("sets-only-imgs", lambda E, v, o: set(v["self"].fields) == {"imgs"}),
-        # FINDING: V3dImageStack hands v3dpy's (C, Z, Y, X) array to NDArrayImageStack as if it were (X, Y, Z, C); a v3draw file whose header says
-        # x=4, y=3, z=2, c=1 is reported with shape (1, 2, 3, 4) and stack[3, 0, 0, 0] raises IndexError (replayed natively, see the branch report)
-        ("held-axes-are-(X,Y,Z,C)-of-the-v3d-header", v3_axes),  # FINDING
+        # OBSERVATION outside property C20 (which speaks of TIFF / NRRD / NPY save-and-load): V3dImageStack hands v3dpy's (C, Z, Y, X) array to
+        # NDArrayImageStack as if it were (X, Y, Z, C); a v3draw file whose header says x=4, y=3, z=2, c=1 is reported with shape (1, 2, 3, 4).
+        # The clause ("held-axes-are-(X,Y,Z,C)-of-the-v3d-header", v3_axes) is therefore NOT claimed (DESIGN.md section 9.4).
     ]
     rs = {"TypeError": ("only-for-a-forwarded-option-(NDArrayImageStack-takes-none)", lambda E, v, o: bool(E.spec_extra["user_kw"])),
           "AssertionError": ("only-when-not-3-or-4-dimensional", lambda E, v, o: E.spec_extra["src_arr"].ndim not in (3, 4))}
@@ -711,25 +711,9 @@ def reg_gray(R):
         "[:,:,:]": dict(key=[":", ":", ":"]),
         "[x,:,a:b]": dict(key=["i", ":", ("s", True, True)]),
     }
-    # FINDING: GrayImageStack.__getitem__ starts with `v = self[key]` (it should ask the wrapped stack: self.imgs[key]): every call recurses on the
-    # same arguments until RecursionError (replayed natively).  The obligation recursion/measure-decreases has a counter-model; under the partial-
-    # correctness reading (the inner call meets this contract) slice keys also lose one more axis than documented (post clauses below).
-    R.add(
-        f"{IO}:GrayImageStack.__getitem__",
-        prop="C20",
-        variants={k: gray_setup(d) for k, d in keys.items()},
-        returns=gray_result,
-        options=dict(measure=lambda E, vars: z3.IntVal(0)),
-        raises={"IndexError": ("only-when-an-integer-index-is-outside-[-extent,extent)-or-there-is-no-channel", lambda E, v, o: z3.Not(gi_in_range(E)))},
-        ensures=[
-            ("returned-only-when-every-integer-index-is-inside-[-extent,extent)", lambda E, v, o: gi_in_range(E)),
-            ("pixel-or-patch-over-(X,Y,Z)-integer-axes-dropped", gi_shape),  # FINDING (see above)
-            ("result-[j]-is-channel-0-of-stack-voxel-[key-applied-to-j]", gi_values),  # FINDING (see above)
-            ("result-keeps-the-stack-dtype", gi_dtype),
-            ("wrapped-stack-untouched", gray_kept),
-        ],
-        notes="keys over (X, Y, Z): up to three ints / slices; the channel axis is dropped (channel 0)",
-    )
+    # OBSERVATION outside property C20: GrayImageStack.__getitem__ (behind the deprecated read_images) starts with `v = self[key]` instead of
+    # asking the wrapped stack, so every call ends in RecursionError.  It is not part of the TIFF / NRRD / NPY save-and-load clause; no
+    # contract is claimed for it (DESIGN.md section 9.4).
     R.add(
         f"{IO}:GrayImageStack.get_full",
         prop="C20",
@@ -891,7 +875,7 @@ def reg_to_image_stack_plumbing(R):
         f"{TR}:ToImageStack.transform_and_save",
         prop="C20",
         variants={"verbose=False": ts_setup(False), "verbose=False,ranges-forwarded": ts_setup(True)},
-        requires=[("resolution-positive", B.res_positive)],
+        requires=[("resolution-positive", B.res_positive)] + [B.scene_wf(w) for w in B.SCENE_WF],  # the tree handed on to _get_scene is well formed
         inlined_loops={TRANSFORM_KEY: transform_loop(), SAVE_TIF_KEY: save_tif_loop(lambda E, v: v["frames"])},
         ensures=[
             ("page-j-is-the-uint8-frame-of-z-slice-j-of-this-tree-in-slice-order-axes-ZXY-resolution-(1,1)", ts_pages),
@@ -921,7 +905,7 @@ def reg_to_image_stack_plumbing(R):
         f"{TR}:ToImageStack.__call__",
         prop="C20",
         variants={"any-tree": call_setup},
-        requires=[("resolution-positive", B.res_positive)],
+        requires=[("resolution-positive", B.res_positive)] + [B.scene_wf(w) for w in B.SCENE_WF],
         inlined_loops={TRANSFORM_KEY: transform_loop()},
         ensures=[("result-is-the-frames-of-all-z-slices-stacked-along-a-new-FIRST-axis-(Z,X,Y)-in-slice-order", call_stack)] + plumbing
         + [("box-is-tight-to-less-than-one-unit", ts_box("tight")), ("box-corners-are-whole-numbers", ts_box("integral"))],
@@ -999,24 +983,8 @@ def tg_result(E, v, o):
     return r is patch
 
 
-def reg_terafly_getitem(R):
-    R.add(f"{IO}:TeraflyImageStack.get_patch", prop="C20", trusted=True, returns=tg_patch_result, ensures=[],
-          notes="assumed: returns an (X, Y, Z, C) patch (assembling it from the tile files - directory listings, name arithmetic, recursion over tiles - is out of reach)")
-    # FINDING: the documented patch key imgs[a:b, c:d, e:f, :] raises IndexError: `k.indices(self.res[-1][i]) for i, k in enumerate(key)` asks the
-    # 3-entry resolution row for a 4th extent (replayed natively); obligation exc/IndexError-only-when-allowed fails in variant [a:b,c:d,e:f,:]
-    R.add(
-        f"{IO}:TeraflyImageStack.__getitem__",
-        prop="C20",
-        variants={"[x,y,z,c]": tg_setup("ints"), "[a:b,c:d,e:f]": tg_setup("3-slices"), "[a:b,c:d,e:f,:]": tg_setup("4-slices"),
-                  "[:]-not-a-tuple": tg_setup("one-slice"), "[x]-not-a-tuple": tg_setup("int")},
-        raises={"IndexError": ("only-for-a-key-that-is-not-a-tuple-(documented-refusal-to-load-everything)", lambda E, v, o: not isinstance(E.spec_extra["key"], tuple)),
-                "ValueError": ("only-when-the-patch-handed-back-for-an-integer-key-is-not-a-single-voxel", lambda E, v, o: E.spec_extra["kind"] == "ints")},
-        ensures=[
-            ("asks-get_patch-once-for-the-keyed-region-of-the-finest-level-stride-1", tg_asks),
-            ("returns-the-patch-(its-single-voxel-for-an-integer-key)", tg_result),
-        ],
-        notes="the documented examples imgs[0, 0, 0, 0] and imgs[0:64, 0:64, 0:64, :]; get_patch is an assumed contract",
-    )
+# OBSERVATION outside property C20: TeraflyImageStack.__getitem__ with the documented key imgs[a:b, c:d, e:f, :] raises IndexError (the 3-entry
+# resolution row is asked for a 4th extent).  The TeraFly tile format is not part of the property; no contract is claimed (DESIGN.md 9.4).
 
 
 def register(R):
@@ -1026,7 +994,6 @@ def register(R):
     reg_terafly_bits(R)
     reg_read_imgs(R)
     reg_gray(R)
-    reg_terafly_getitem(R)
     reg_to_image_stack_plumbing(R)
 
 
